@@ -6,7 +6,7 @@ export GOFLAGS= GOPROXY=off GOSUMDB=off GOTOOLCHAIN=local GOWORK=$V/harness/go.w
 N=${3:-400}; B=${4:-35}
 T=$(mktemp -d /var/tmp/poasweep.XXXX)
 for seed in $(seq $1 $2); do
-  for mode in calm envelope wild guard; do
+  for mode in calm envelope wild guard gov; do
     $V/.build/harness chain -seed $seed -n $N -blocks $B -mode $mode -restarts -ops $T/o.txt -obs $T/b.txt >/dev/null 2>&1
     $V/lean/.lake/build/bin/poamodel < $T/o.txt > $T/m.txt
     d=$(python3 $V/tools/cmpobs.py $T/b.txt $T/m.txt | head -1)
